@@ -169,9 +169,12 @@ def run_unstorable(case):
         def fn(x):
             log.append(x)
             return bad if x == case['poison'] else 'r%d' % x
-        c = A.open_archive(case['backend'], root, 'A', cached=True)
-        mod = klepto.safe if case['module'] == 'safe' else klepto
-        f = getattr(mod, case['algo'] + '_cache')(maxsize=case['maxsize'], cache=c, keymap=klepto.keymaps.stringmap())(fn)
+        try:
+            c = A.open_archive(case['backend'], root, 'A', cached=True)
+            mod = klepto.safe if case['module'] == 'safe' else klepto
+            f = getattr(mod, case['algo'] + '_cache')(maxsize=case['maxsize'], cache=c, keymap=klepto.keymaps.stringmap())(fn)
+        except Exception as e:
+            return [Discrepancy('C07/unstorable/decorate/%s' % H.exc_sig(e), 'opening the archive / decorating raised %r' % (e,))], None, classes
         computed = {}
         failed_writes = 0
         for i, (x, rs) in enumerate(case['calls']):
